@@ -133,7 +133,7 @@ def prop_graph(rec):
                 if r.rc == 0:
                     raise Violation(
                         'graph/two-producers-accepted', 'the script declares '
-                        'a {} named like the file an earlier step produces, '
+                        'a {} producing the file an earlier step produces, '
                         'but configuration succeeded: two rules for one '
                         'name'.format(model['clash'][1]), case)
                 rec.classes['name-clash-rejected'] += 1
